@@ -721,6 +721,43 @@ def rule_PL7(ctx, tier):
     return rr
 
 
+def _pred_rows(ctx, fn):
+    """rows (variant | tuple of variants | None, {field: bool}, result) of a `fn(&self) -> bool` over an enum, one per CFG path"""
+    from .rulekit import enumerate_paths
+    b = ctx.prog.bodies.get(fn)
+    if b is None:
+        return None
+    rows = []
+    try:
+        paths = enumerate_paths(ctx, b, [0], budget=4000)
+    except RuntimeError:
+        return None
+    for path, facts, at_ret in paths:
+        if not at_ret:
+            continue
+        res = None
+        for bb in path:
+            for s_ in b.blocks[bb]["s"]:
+                if s_["k"] == "assign" and s_["d"] == [0]:
+                    t = ctx.og._rvalue(b, s_["rv"], 0, ())
+                    res = t[1] if isinstance(t, tuple) and t and t[0] == "const" and isinstance(t[1], bool) else "?"
+        if res in (None, "?"):
+            return None
+        v, fields = None, {}
+        for f in facts:
+            if f[0] == "variant":
+                v = f[2]
+            elif f[0] == "variant_in" and v is None:
+                v = tuple(f[2])
+            elif f[0] == "truth":
+                sh = og.show(f[1])
+                for k_ in ("f:0", "f:1", "f:2"):
+                    if sh.endswith("." + k_):
+                        fields[k_] = f[2]
+        rows.append((v, fields, res))
+    return rows
+
+
 def rule_PL8(ctx, tier):
     rr = RuleResult("PL8", "retrier outcome handling: each outcome arm sets the documented tower / retrier status")
     P = ctx.prog
@@ -763,6 +800,42 @@ def rule_PL8(ctx, tier):
         rr.fail("failed-gate", "RetrierStatus::Failed is set without `e.is_permanent()`", where=b.span)
     if "Stopped" in rstat and variant_fact(ctx, b, rstat["Stopped"], "Ok", "retry_notify"):
         rr.ok("Stopped after success")
+    # the task never ends with the retrier still marked Running: every feasible path from the give-up arm to the end of the
+    # spawned task sets a retrier status.  Feasibility of a path is judged against the rows of RetryError::is_permanent
+    # (read off its own MIR), because `if e.is_permanent()` and the `match e` that follows are correlated.
+    from .rulekit import enumerate_paths
+    rows = _pred_rows(ctx, "watchtower_plugin::retrier::RetryError::is_permanent")
+    starts = [succ for sw, succ in switch_succ_with(ctx, b, "variant", "Err", "retry_notify")]
+    if not rows or not starts:
+        rr.anchor_missing("is_permanent rows / Err arm of retry_notify in Retrier::start")
+    else:
+        try:
+            paths = enumerate_paths(ctx, b, starts)
+        except RuntimeError as e:
+            paths = None
+            rr.fail("outcome-paths", "%s" % e, where=b.span)
+        bad_classes = {}
+        for path, facts, at_ret in paths or []:
+            if not at_ret or set(path) & set(rs_sites):
+                continue
+            v, fields, perm = None, {}, None
+            for f in facts:
+                sh = og.show(f[1])
+                if f[0] == "truth" and any(c.endswith("RetryError::is_permanent") for c in og.calls_in(f[1])):
+                    perm = f[2]
+                elif f[0] == "variant" and f[2] in ("Subscription", "Unreachable", "Misbehaving", "Abandoned"):
+                    v = f[2]
+                elif f[0] == "truth" and ".v:Subscription.f:1" in sh:
+                    fields["f:1"] = f[2]
+            cons = [r for r in rows if (v is None or r[0] is None or v == r[0] or (isinstance(r[0], tuple) and v in r[0])) and all(r[1].get(k_, val) == val for k_, val in fields.items())]
+            if perm is not None and cons and all(r[2] != perm for r in cons):
+                continue  # contradicts is_permanent's own definition: not a real path
+            bad_classes[(v, tuple(sorted(fields.items())), perm)] = path
+        if paths is not None and not bad_classes:
+            rr.ok("every feasible give-up path ends with the retrier Failed or Idle (never still Running)", sample={"rule": "PL8", "is_permanent rows": [(r[0], r[1], r[2]) for r in rows][:6]})
+        for (v, flds, perm), path in sorted(bad_classes.items(), key=str):
+            rr.fail("task-ends-running:%s" % (v or "any"), "the retry task can end after `%s%s` (is_permanent = %s) without setting a retrier status: it stays `Running` for ever — no auto-retry, `retrytower` refused, new revocations queued to a dead task" % (
+                v or "some error", "".join("(.., %s)" % val for _, val in flds), perm), where=b.line_of(path[-1]))
     # idle: pending cleared and status unreachable
     if "Idle" in rstat:
         clr = [x for x in sites_containing(b, "HashSet", "::clear") if x in b.reachable(rstat["Idle"])]
